@@ -163,6 +163,12 @@ pub fn check_program(prog: &Program, seed: u64, thorough: bool, rep: &mut Report
 }
 
 pub fn run(p: &Params, rep: &mut Report) {
+    if p.shard == 8 {
+        // depth instead of width: terms nested a few hundred (thousand) levels deep
+        for d in if p.thorough { vec![64u32, 257, 1000, 3000] } else { vec![65u32, 256, 700 + (p.seed as u32 % 7) * 50] } {
+            super::ladder::deep_nesting(rep, "C05", d, p.seed);
+        }
+    }
     if p.shard == 5 {
         let n = if p.thorough { 150_000 } else { 70_000 };
         super::deep::probe(rep, "re-chain", n, "ok", "witness", p.seed);
